@@ -98,6 +98,19 @@ CHECKS = {
         note="Hash size 16; silent byte changes only in blocks with a recorded hash of current data (the property's damage domain); "
              "a fix that stops with a fatal error is re-run as the tool asks and the completed run is judged.",
         design="DESIGN.md section 4, C05 and section 7"),
+    "C04": dict(
+        category="exploration",
+        technique="property-based testing (Hypothesis): corruption sets generated on the independently parsed block map, predicted error tags and bad marks compared with the tool's log, content file and status",
+        engine="hypothesis-cli",
+        text="After generated histories closed by a sync (optionally with a hash migration in progress) data and parity blocks are "
+             "corrupted silently (bit, byte, block, zeroing; size and mtime kept); check -a, check and scrub plans must name exactly "
+             "the damaged blocks (disk, file, file position / level, stripe), exit non-zero, and scrub must mark exactly the covered "
+             "damaged stripes bad (independent content parse, status has_bad, scrub -p bad re-reports them); undamaged arrays give "
+             "exit 0, no error, no mark.",
+        note="Truncated-hash collisions are recomputed by the oracle and exempted; parity verdicts are expected only where the "
+             "command can judge the stripe (scrub: all data of the stripe correct; check: <= N damaged blocks); swap-of-two-blocks shape "
+             "is not generated yet.",
+        design="DESIGN.md section 4, C04"),
 }
 
 NOT_YET = "check not built yet at this commit (planned in DESIGN.md section 4); not claimed until it runs"
